@@ -19,7 +19,8 @@ func init() {
 			"D4 Copy keeps kind, limit and collapsed state (C14-D2 obligations are re-evaluated here for the two types). "+
 			"D6 same-kind merge and collapse shapes — every argument bin is added to the slot of its own index or, only when its index lies beyond the receiver's collapsing edge, to the edge slot; after a too-wide adjust the window is exactly the array (minIndex = newMax − len + 1 / maxIndex = newMin + len − 1), which is what bounds the span by the bin limit. "+
 			"D5 truncating integer division in the dense family's index arithmetic is applied only to widths (index coefficients cancel) or lengths — `(min+max+1)/2` rounds toward zero, i.e. the wrong way for negative midpoints, and shifts the window by one slot. "+
-			"NOT DECIDED: where folded weight lands, conservation of weight through adjust/shiftCounts, and merge safety of a store wider than 2·N into an empty collapsing store (needs the relational invariant maxIndex−minIndex+1 ≤ len(bins); recorded in DESIGN.md, not detectable by these rules).",
+			"D7 merge safety on the empty edge — adjust/shiftCounts index bins[i−offset] over [minIndex, maxIndex]; on the empty-store edge of every extendRange the window stored before adjust must fit the freshly allocated array: a single slot, or an allocation with the uncapped length of the requested range (this is the structural necessary condition of 'every merge is safe … including merging a store wider than N into an empty or cleared receiver'). "+
+			"NOT DECIDED: where folded weight lands and conservation of weight through adjust/shiftCounts in general (the relational invariant maxIndex−minIndex+1 ≤ len(bins) is only established at the empty edge, its preservation elsewhere is not proved).",
 		"one obligation per (collapsing type × promoted method), per growth site, per normalize path, per writer of the collapsed flag; exhaustive over method sets",
 		true, runC05)
 }
@@ -81,6 +82,7 @@ func runC05(c *Ctx) {
 		return
 	}
 	c05Halving(c, "C05-D5")
+	c05EmptyEdge(c)
 	for _, ct := range cts {
 		c05Shadow(c, ct)
 		c05Cap(c, ct)
@@ -757,4 +759,93 @@ func c05MergeFold(c *Ctx, ct collapsingType) {
 		exp = "after a too-wide adjust: minIndex = newMin and maxIndex = newMin + len(bins) − 1 (the window spans exactly the array)"
 	}
 	c.R.check(badW == "" && nWide > 0, rule, tname+".adjust/window-equals-array", shortFn(adj), c.fpos(adj), exp, firstNonEmpty(badW, fmt.Sprintf("%d too-wide path(s)", nWide)))
+}
+
+// c05EmptyEdge (C05-D7): adjust and shiftCounts index bins[i − offset] for i in [minIndex, maxIndex];
+// they rely on the window fitting the array. On the empty-store edge of extendRange the window is
+// (re)established from scratch: it must be a single slot (which always fits), or the array must have
+// been allocated with the uncapped length of the requested range. Storing the requested, possibly
+// wider-than-the-limit range before adjust runs makes adjust index past the array when a wide store
+// is merged into an empty collapsing store.
+func c05EmptyEdge(c *Ctx) {
+	const rule = "C05-D7"
+	dense := c.P.NamedType(pkgStore, "DenseStore")
+	var ts []*types.Named
+	ts = append(ts, dense)
+	if cts, err := collapsingTypes(c); err == "" {
+		for _, ct := range cts {
+			ts = append(ts, ct.t)
+		}
+	}
+	n := 0
+	for _, t := range ts {
+		f := c.P.DeclaredMethod(t, "extendRange")
+		if f == nil {
+			continue
+		}
+		tname := t.Obj().Name()
+		paths, _ := execNoInline(c, f, nil, 1)
+		for i, p := range paths {
+			empty, found := pathCond(p, func(tm *Term) bool {
+				if isMethodCall(tm, "IsEmpty") {
+					return true
+				}
+				if tm.isBin("==") {
+					for j := 0; j < 2; j++ {
+						x := tm.Args[j].unver()
+						if tm.Args[1-j].isConst("0") && x.Op == "field" && x.Sym == dr.count {
+							return true
+						}
+					}
+				}
+				return false
+			})
+			if !found || !empty {
+				continue
+			}
+			n++
+			var minV, maxV *Term
+			capped := true
+			adjSeq := 1 << 30
+			for _, e := range p.Effects {
+				if e.Kind == "call" && isMethodCall(e.Call, "adjust") && adjSeq == 1<<30 {
+					adjSeq = e.Seq
+				}
+			}
+			for _, e := range p.Effects {
+				if e.Seq > adjSeq {
+					continue
+				}
+				if e.Kind == "store" && e.Addr.unver().Op == "field" {
+					switch e.Addr.unver().Sym {
+					case dr.minIndex:
+						minV = e.Val
+					case dr.maxIndex:
+						maxV = e.Val
+					}
+				}
+				if e.Kind == "call" && isMethodCall(e.Call, "getNewLength") {
+					// the uncapped length: DenseStore's own getNewLength called on a DenseStore receiver
+					capped = !strings.Contains(e.Call.Sym, ".DenseStore).getNewLength")
+				}
+			}
+			key := fmt.Sprintf("%s.extendRange/path%d[%s]/empty-edge-window-fits", tname, i, pathSig(p))
+			if minV == nil || maxV == nil {
+				c.R.violate(rule, key, shortFn(f), c.fpos(f), "the empty edge establishes minIndex and maxIndex before adjust", fmt.Sprintf("min=%v max=%v", minV, maxV))
+				continue
+			}
+			w := linCombine(linearOf(maxV), linearOf(minV), -1)
+			single := len(w.Coef) == 0 && w.Const == 0
+			ok := single || !capped
+			why := "window is a single slot"
+			if !single {
+				why = fmt.Sprintf("window width = %s + 1 while the array length is capped by the bin limit: adjust would index past the array for a range wider than the limit", w.Key())
+				if !capped {
+					why = "array allocated with the uncapped length of the requested range"
+				}
+			}
+			c.R.check(ok, rule, key, shortFn(f), c.fpos(f), "on the empty-store edge the window handed to adjust fits the freshly allocated array (single slot, or uncapped allocation)", why)
+		}
+	}
+	c.R.floor(rule, "empty-edge paths of extendRange", n, 3)
 }
